@@ -27,13 +27,13 @@ ASSUMPTIONS = [
     "an exception raised by mashumaro's code generator while the class is being defined means the class cannot exist: no verdict (counted)",
     "first use = first instantiation, performed after all classes of the module (incl. forward-referenced ones) are defined",
 ]
-MUST_SEE = ["init_false_fields", "reject_at_first_use", "reject_at_definition", "override_changes_category", "newtype_node_in_tuple", "none_annotation", "child_verdicts", "prop_verdicts", "forward_refs", "postponed", "inherited", "reuse_after_rejection"]
+MUST_SEE = ["none_default_fields", "init_false_fields", "reject_at_first_use", "reject_at_definition", "override_changes_category", "newtype_node_in_tuple", "none_annotation", "child_verdicts", "prop_verdicts", "forward_refs", "postponed", "inherited", "reuse_after_rejection"]
 CONFIG = {
     "quick": {"shards": 16, "d2_sample": 200, "d3_sample": 40, "layouts_per_ann": 3, "watchdog_s": 600},
     "thorough": {"shards": 32, "d2_sample": -1, "d3_sample": 2000, "layouts_per_ann": 99, "watchdog_s": 3400},
 }
 
-LAYOUTS = ["single", "inherit", "override_prop", "override_child", "noninit", "flags"]
+LAYOUTS = ["single", "inherit", "override_prop", "override_child", "noninit", "flags", "none_default", "override_none_default"]
 
 
 def spellings_for(a):
@@ -64,6 +64,14 @@ def class_sources(P, k, a, layout, spelling):
         return [(T, f"{deco}class {T}(ASTNode):\n    y: int = 0\n    x: {ann} = field(default={dflt}, init=False)\n", True)]
     if layout == "flags":
         return [(T, f"{deco}class {T}(ASTNode):\n    y: int = 0\n    x: {ann} = field(default={dflt}, compare=False, repr=False, kw_only=True, hash=False)\n", True)]
+    if layout == "none_default":
+        # a default value (here None, whatever the annotation) is no part of the annotation
+        return [(T, f"{deco}class {T}(ASTNode):\n    y: int = 0\n    x: {ann} = None\n", True)]
+    if layout == "override_none_default":
+        return [
+            (B, f"{deco}class {B}(ASTNode):\n    y: int = 0\n    x: {ann} = {dflt}\n", False),
+            (T, f"{deco}class {T}({B}):\n    x: {ann} = field(default=None)\n", True),
+        ]
     if layout == "inherit":
         return [
             (B, f"{deco}class {B}(ASTNode):\n    x: {ann} = {dflt}\n", False),
@@ -130,6 +138,8 @@ def run_batch(ctx, P, items, postponed_module: bool):
             ctx.count("inherited")
         if layout == "noninit":
             ctx.count("init_false_fields")
+        if layout in ("none_default", "override_none_default"):
+            ctx.count("none_default_fields")
         if a == ("none",):
             ctx.count("none_annotation")
         if a[0] in ("tvar", "tfix") and any(x == ("nt", "NTnode") for x in AG.walk(a)):
@@ -164,7 +174,10 @@ def run_batch(ctx, P, items, postponed_module: bool):
             continue
         C = ns[T]
         try:
-            C()
+            if layout in ("none_default", "override_none_default"):
+                C.get_child_fields()  # first use without an instance (None is not a value of every annotation)
+            else:
+                C()
             inst = "ok"
         except InvalidFieldAnnotations as e:
             inst = ("reject", [n for n, _, _ in e.invalid_annotations])
